@@ -93,6 +93,19 @@ def cmp_terms(I, st, a, b):
         if da.variant != db.variant:
             return z3.BoolVal((da.discr or 0) < (db.discr or 0)), z3.BoolVal(False)
         return cmp_terms(I, st, Agg('()', da.fields), Agg('()', db.fields))
+    if isinstance(da, Enum) and isinstance(db, Enum) and not da.fields and not db.fields and str(da.ty).split('::')[-1] == str(db.ty).split('::')[-1] and (da.discr is None or db.discr is None):
+        # field-less variants of an enum whose discriminants are not known (another crate's enum): equality by variant name; order is not available
+        if da.variant == db.variant:
+            return z3.BoolVal(False), z3.BoolVal(True)
+        return z3.Bool('enum_order!%s!%s' % (da.variant, db.variant)), z3.BoolVal(False)
+    for x, y in ((da, db), (db, da)):
+        if isinstance(x, Enum) and x.discr is None and not x.fields and isinstance(y, Agg) and not y.fields and y.ty and re.fullmatch(r'[A-Z]\w*', str(y.ty).split('::')[-1]):
+            # a field-less variant of another crate's enum printed as a bare constant (`UnexpectedEof`): equality by name
+            if str(y.ty).split('::')[-1] == x.variant:
+                return z3.BoolVal(False), z3.BoolVal(True)
+            return z3.Bool('enum_order!%s!%s' % (x.variant, y.ty)), z3.BoolVal(False)
+    if isinstance(da, Enum) and da.discr is None and not da.fields or isinstance(db, Enum) and db.discr is None and not db.fields:
+        raise Unmodelled('comparison of enum values without known discriminants: %r vs %r' % (da, db))
     a = int_of(I, st, a)
     b = int_of(I, st, b)
     if isinstance(a, z3.BoolRef) or isinstance(b, z3.BoolRef):
